@@ -95,10 +95,10 @@ impl Download {
             _ => return Err(anyhow!("unsupported download type")),
         };
 
-        let download_rule = match rules.values().find(|rule| rule.name == rulename) {
-            Some(x) => x,
-            None => panic!("missing {} rule for module {}", rulename, module.name),
-        };
+        let download_rule = rules
+            .values()
+            .find(|rule| rule.name == rulename)
+            .ok_or_else(|| anyhow!("missing {} rule for module {}", rulename, module.name))?;
 
         let ninja_download_rule = download_rule.to_ninja(env)?;
 
@@ -142,12 +142,12 @@ impl Download {
             _ => return Err(anyhow!("unsupported download type for patching")),
         };
 
-        let patch_rule = match rules.values().find(|rule| rule.name == rulename) {
-            Some(x) => x,
-            None => panic!("missing {} rule for module {}", rulename, module.name),
-        };
+        let patch_rule = rules
+            .values()
+            .find(|rule| rule.name == rulename)
+            .ok_or_else(|| anyhow!("missing {} rule for module {}", rulename, module.name))?;
 
-        let ninja_patch_rule = patch_rule.to_ninja(env).unwrap();
+        let ninja_patch_rule = patch_rule.to_ninja(env)?;
 
         // "srcdir" is filled in data.rs
         let srcdir = module.srcdir.as_ref().unwrap();
